@@ -791,6 +791,59 @@ static void enumerate_c01(void)
 			rt_free(&t);
 		}
 	}
+	/* configurations whose key and algorithm do not go together but which setkey may take (an EC key pinned to EdDSA or to another
+	 * curve's algorithm, an Ed key pinned to ES*, RSA against EC, ...): under the pinned header, every signature the key can make by
+	 * its own nature -- each hash, r||s and DER for ECDSA, PKCS#1 and PSS for RSA.  None is a valid signature of that algorithm under
+	 * that key unless the reference admits the key for the algorithm and verifies it. */
+	static const char *mk[] = { "p256a", "p384", "p521", "k256", "ed25519a", "ed448", "rsa2048a", "rsapss2048", "rsa2050", "bp256r1", "bp384r1" };
+	for (unsigned k = 0; k < sizeof mk / sizeof *mk; k++)
+		for (int y = 1; y < 15; y++) {
+			const vk_t *vk = vk_get(mk[k]);
+			if (!vk || rc_family((jwt_alg_t)y) == RC_FAM_HS)
+				continue;
+			if (!vf_case("key %s pinned to %s: every signature the key can make, under a header naming %s", mk[k], tok_alg_names[y], tok_alg_names[y]))
+				continue;
+			char *jt = vk_jwk_text(vk, 0, NULL, NULL);
+			jwk_set_t *set = jwks_create(jt);
+			free(jt);
+			const jwk_item_t *item = set ? jwks_item_get(set, 0) : NULL;
+			jwt_checker_t *c = jwt_checker_new();
+			if (item && !jwks_item_error(item) && !jwt_checker_setkey(c, (jwt_alg_t)y, item)) {
+				char hdr[64];
+				snprintf(hdr, sizeof hdr, "{\"alg\":\"%s\"}", tok_alg_names[y]);
+				char *input = tok_signing_input(hdr, PAYLOADS[0]);
+				rc_rng_reseed(12000 + k * 16 + y);
+				for (int v = 0; v < rc_native_count(vk); v++) {
+					unsigned char *sig;
+					size_t sl;
+					const char *label;
+					if (rc_native_sign(vk, v, input, strlen(input), &sig, &sl, &label))
+						continue;
+					char *tok = tok_attach(input, sig, sl);
+					int r = jwt_checker_verify(c, tok);
+					n_ver++;
+					vf_obs(r == 0);
+					if (r == 0) {
+						n_acc++;
+						if (!(rc_key_admissible(vk, (jwt_alg_t)y) && rc_verify(vk, (jwt_alg_t)y, input, strlen(input), sig, sl))) {
+							char key[200];
+							snprintf(key, sizeof key, "accepted-without-valid-signature|key-cannot-sign-this-algorithm|%s/%s|%s", vk->crv[0] ? vk->crv : vk->kty,
+								 tok_alg_names[y], jwt_get_crypto_ops());
+							vf_violation(key, "%s pinned to %s [%s]: a token whose third segment is the key's %s signature is accepted: %s", mk[k], tok_alg_names[y],
+								     jwt_get_crypto_ops(), label, tok);
+						}
+					}
+					free(tok);
+					free(sig);
+				}
+				free(input);
+				vf_nontrivial_case();
+			} else
+				vf_obs(3);
+			jwt_checker_free(c);
+			jwks_free(set);
+			flush_counts();
+		}
 	/* key rotation with certain address reuse: a checker holding the current key never accepts the retired key's tokens */
 	if (provider == 0)
 		rot_enumerate("accepted-without-valid-signature");
